@@ -32,6 +32,19 @@ pub struct Case {
     pub pos: usize,
     pub kind: Kind,
     pub with_txs: bool,
+    /// consensus.prune_after_blocks
+    #[serde(default = "eight")]
+    pub prune: u64,
+    /// key index of the node's own wallet (5 = a key that never transacts; 0/1 = the payers of the
+    /// competing chains, so that winding and unwinding touches the wallet)
+    #[serde(default = "five")]
+    pub owner: u8,
+}
+fn five() -> u8 {
+    5
+}
+fn eight() -> u64 {
+    8
 }
 
 pub const TX_KINDS: [TxEdit; 7] = [
@@ -98,6 +111,7 @@ pub fn hist_of(c: &Case) -> HistSpec {
             heartbeat: 100,
             social_stake: 0,
             loading_completed: c.loading_completed,
+            prune: c.prune,
         },
         treasury: 0,
         issuance: vec![(0, 50_000_000), (1, 70_000_000), (0, 30_000_000), (1, 9_000_000), (2, 1_000)],
@@ -137,7 +151,7 @@ pub fn run_case(c: &Case) -> (Vec<(String, String)>, Info) {
     info.offending_built = true;
     let table = BlockTable::from_blocks(&built.blocks);
     let max_id = built.blocks.iter().map(|b| b.id).max().unwrap_or(1) + 1;
-    let mut d = Deliverer::new(Node::new(hist.ncfg, 5), u64::MAX);
+    let mut d = Deliverer::new(Node::new(hist.ncfg, c.owner), u64::MAX);
     let kind_s = match c.kind {
         Kind::Hdr(e) => format!("hdr:{:?}", e),
         Kind::Tx(e) => format!("tx:{:?}", e),
@@ -233,11 +247,21 @@ pub fn cases(thorough: bool) -> Vec<Case> {
                         if !thorough && (m + d + pos + ki) % 2 == 1 && !(pos > 0 && d > 0 && m <= 3) {
                             continue;
                         }
-                        for with_txs in [true, false] {
+                        for (with_txs, prune, owner) in [(true, 8u64, 5u8), (false, 8, 5), (true, 2, 0), (true, 8, 0), (true, 8, 1)] {
+                            // the node's wallet only matters if a valid candidate block is wound and unwound
+                            if owner != 5 && prune == 8 && pos == 0 {
+                                continue;
+                            }
                             if !with_txs && matches!(kind, Kind::Tx(_)) {
                                 continue;
                             }
+                            // with pruning after 2 blocks a roll-back of depth >= 2 crosses pruned blocks
+                            if prune != 8 && d < 2 {
+                                continue;
+                            }
                             out.push(Case {
+                                prune,
+                                owner,
                                 gp: if m + k > 6 { 6 } else { 100 },
                                 loading_completed,
                                 m,
